@@ -322,18 +322,16 @@ theorem split_concat (a : Annotation) : (split a).flatMap residues = residues a 
   unfold split
   rw [List.flatMap_map]
   have key : ∀ i ∈ List.range a.seq.length,
-      residues (if i = 0 ∧ truthy a.labile = true then
-        { slice { a with labile := none } (i : Int) ((i : Int) + 1) with labile := a.labile }
-        else slice { a with labile := none } (i : Int) ((i : Int) + 1)) = ((residues a).drop i).take 1 := by
+      residues (if i ≠ 0 ∨ (!truthy a.labile) = true then
+        { slice a (i : Int) ((i : Int) + 1) with labile := none }
+        else slice a (i : Int) ((i : Int) + 1)) = ((residues a).drop i).take 1 := by
     intro i hi
     have hi' : i < a.seq.length := by simpa using hi
-    have h := residues_slice { a with labile := none } i (i + 1) (by omega) (by simp only []; omega)
-    have hr : residues { a with labile := none } = residues a := residues_congr _ _ rfl rfl
-    rw [hr] at h
+    have h := residues_slice a i (i + 1) (by omega) (by omega)
     have hcast : ((i : Int) + 1) = ((i + 1 : Nat) : Int) := by omega
     rw [hcast]
     split
-    · refine (residues_congr _ (slice { a with labile := none } (i : Int) ((i + 1 : Nat) : Int)) rfl rfl).trans ?_
+    · refine (residues_congr _ (slice a (i : Int) ((i + 1 : Nat) : Int)) rfl rfl).trans ?_
       rw [h]; congr 1; omega
     · rw [h]; congr 1; omega
   refine (flatMap_congr' key).trans ?_
@@ -346,14 +344,14 @@ theorem split_getElem? (a : Annotation) (i : Nat) (hi : i < a.seq.length) :
       p.cterm = (if i + 1 = a.seq.length then a.cterm else none) ∧
       p.labile = (if i = 0 ∧ truthy a.labile then a.labile else none) ∧
       p.isotope = a.isotope ∧ p.static = a.static := by
-  have F := slice_fields { a with labile := none } (i : Int) ((i : Int) + 1)
-  have f1 : (slice { a with labile := none } (i : Int) ((i : Int) + 1)).nterm =
+  have F := slice_fields a (i : Int) ((i : Int) + 1)
+  have f1 : (slice a (i : Int) ((i : Int) + 1)).nterm =
       if (i : Int) > 0 then none else a.nterm := F.1
-  have f2 : (slice { a with labile := none } (i : Int) ((i : Int) + 1)).cterm =
+  have f2 : (slice a (i : Int) ((i : Int) + 1)).cterm =
       if (i : Int) + 1 < (a.seq.length : Int) then none else a.cterm := F.2.1
-  have f3 : (slice { a with labile := none } (i : Int) ((i : Int) + 1)).isotope = a.isotope := F.2.2.1
-  have f4 : (slice { a with labile := none } (i : Int) ((i : Int) + 1)).static = a.static := F.2.2.2.1
-  have f5 : (slice { a with labile := none } (i : Int) ((i : Int) + 1)).labile = none := F.2.2.2.2.1
+  have f3 : (slice a (i : Int) ((i : Int) + 1)).isotope = a.isotope := F.2.2.1
+  have f4 : (slice a (i : Int) ((i : Int) + 1)).static = a.static := F.2.2.2.1
+  have f5 : (slice a (i : Int) ((i : Int) + 1)).labile = a.labile := F.2.2.2.2.1
   have e1 : (if (i : Int) > 0 then none else a.nterm) = (if i = 0 then a.nterm else none) := by
     split <;> split <;> first | rfl | omega
   have e2 : (if (i : Int) + 1 < (a.seq.length : Int) then none else a.cterm) =
@@ -364,12 +362,17 @@ theorem split_getElem? (a : Annotation) (i : Nat) (hi : i < a.seq.length) :
   unfold split
   rw [List.getElem?_map, List.getElem?_range hi]
   simp only [Option.map_some]
-  generalize slice { a with labile := none } (i : Int) ((i : Int) + 1) = s at *
+  generalize slice a (i : Int) ((i : Int) + 1) = s at *
   by_cases h : i = 0 ∧ truthy a.labile = true
-  · rw [if_pos h]
-    exact ⟨_, rfl, f1, f2, by simp [h], f3, f4⟩
-  · rw [if_neg h]
+  · have h' : ¬ (i ≠ 0 ∨ (!truthy a.labile) = true) := by simp [h.1, h.2]
+    rw [if_neg h']
     exact ⟨_, rfl, f1, f2, by rw [f5]; simp [h], f3, f4⟩
+  · have h' : i ≠ 0 ∨ (!truthy a.labile) = true := by
+      by_cases h0 : i = 0
+      · right; simp [h0] at h; simp [h]
+      · left; exact h0
+    rw [if_pos h']
+    exact ⟨_, rfl, f1, f2, by simp [h], f3, f4⟩
 
 theorem slice_slice (a : Annotation) (i j k l : Nat) (hij : i ≤ j) (hj : j ≤ a.seq.length) (hkl : k ≤ l)
     (hl : l ≤ j - i) (hl0 : 0 < l ∨ a.intervals = none) :
